@@ -225,4 +225,42 @@ def monitor(ctx, extended=False):
             else:
                 classes.add(cls)
             hist.append(f'point({Q}, water={water})')
+    # two DIFFERENT pumps set to the same speed and impeller diameter, pumping the same slurry, asked at the same flow in turn: each answer is that
+    # pump's own (nothing may be shared between pump objects)
+    for _ in range(ctx.n(40, 1500)):
+        if ctx.stats.get('timeouts', 0) >= 3:
+            break
+        pa, pb = gen_pump(ctx.rng), gen_pump(ctx.rng)
+        if pa._example == pb._example:
+            continue
+        pb.slurry = pa.slurry
+        pb._sp = pa._sp
+        n_common = min(pa.design_speed, pb.design_speed) * ctx.rng.uniform(0.7, 0.9)
+        d_common = min(pa.design_impeller, pb.design_impeller) * 0.98
+        for q_ in (pa, pb):
+            q_.current_speed = n_common
+            q_.current_impeller = d_common
+        Q = min(max(pa.design_QH_curve.keys()), max(pb.design_QH_curve.keys())) * ctx.rng.uniform(0.2, 0.7)
+        water = ctx.rng.random() < 0.3
+        for which, q_ in (('first', pa), ('second', pb), ('first again', pa)):
+            inp = dict(describe(q_, Q, water), history=[f'two pumps ({pa._example}, {pb._example}) at the same speed {n_common!r} and impeller {d_common!r}; this is the {which} one'])
+            ctx.count('evaluations')
+            try:
+                signal.alarm(10)
+                try:
+                    r = q_.point(Q, water=water)
+                finally:
+                    signal.alarm(0)
+            except Timeout:
+                ctx.violation('point() did not terminate within 10 s', inp, key='termination')
+                ctx.count('timeouts')
+                break
+            except Exception as e:   # noqa
+                ctx.violation(f'point() raised {type(e).__name__}: {e}', inp, key='raised')
+                break
+            bad, cls, key = oracle(q_, Q, water, r)
+            if bad:
+                ctx.violation(bad, inp, key=key)
+                break
+            classes.add(('pair', cls))
     ctx.stats['distinct_nontrivial'] = len(classes)
